@@ -25,8 +25,23 @@ class Shared:
         self.conv_calls = []     # (alpha, ml) passed to criteria
         self.max_level_drawn = -1
 
+        self.epoch = -1          # index of the current pricing on this engine (Engine.initialisation starts a new one)
+        self.history = []        # per finished pricing: dict(draws=..., events=..., max_level_drawn=...)
+
+    def new_epoch(self):
+        if self.epoch >= 0:
+            self.history.append({"draws": self.draws, "events": self.events, "max_level_drawn": self.max_level_drawn})
+        self.epoch += 1
+        self.draws, self.events, self.alloc_calls, self.conv_calls, self.max_level_drawn = {}, [], [], [], -1
+
     def __deepcopy__(self, memo):
         return self
+
+
+def pm_offset(epoch, level):
+    """deterministic-path value at maturity carried by the path manager created in pricing `epoch` for `level`
+    (fine, coarse): a stale or wrong path manager shows up in every stored row"""
+    return (epoch / 2.0 + level / 16.0, epoch / 4.0 + level / 32.0)
 
 
 class _Model:
@@ -48,14 +63,18 @@ def _fine_process_class():
     class ScriptedFine(MarkovChainSDE):
         """isinstance(.., MarkovChainSDE) so that the engine builds no COS density (no spot statistics)"""
 
-        def __init__(self, model, df):  # noqa (deliberately no super().__init__)
+        def __init__(self, model, df, shared):  # noqa (deliberately no super().__init__)
             from rpylib.process.process import ProcessRepresentation
             self.model = model
             self.process_representation = ProcessRepresentation.IDENDITY
             self._df = df
+            self.shared = shared
 
-        def deterministic_path(self, times):
-            return np.zeros(len(times))
+        @property
+        def deterministic_path(self):
+            """a closure frozen at the time the engine asks for it (as the real coupling freezes spot and drift)"""
+            off = pm_offset(self.shared.epoch, 0)[0]
+            return lambda times: np.concatenate([np.zeros(len(times) - 1), [off]])
 
         def df(self, t):
             return self._df
@@ -87,12 +106,12 @@ class ScriptedCoupling:
         self.sample = sample
         self.cost = cost
         self.model = _Model()
-        self.fine_process = _fine_process_class()(self.model, df)
+        self.fine_process = _fine_process_class()(self.model, df, self.shared)
         self.level = 0
 
     # -- engine interface
     def initialisation(self, product, max_step_epsilon=None):
-        pass
+        self.shared.new_epoch()       # called once per Engine.initialisation, on the engine's own (level 0) process
 
     def pre_computation(self, mc_paths, product):
         pass
@@ -129,7 +148,9 @@ class ScriptedCoupling:
         if path_managers is not None:
             pm = copy.deepcopy(path_managers[-1])
             pm.update(self.fine_process.process_representation)
-            pm.deterministic_path = lambda times: np.zeros((2, len(times)))
+            off = pm_offset(self.shared.epoch, self.level)
+            pm.deterministic_path = lambda times: np.array([np.concatenate([np.zeros(len(times) - 1), [off[0]]]),
+                                                            np.concatenate([np.zeros(len(times) - 1), [off[1]]])])
             path_managers.append(pm)
 
 
